@@ -156,6 +156,8 @@ class ProgGen:
     """One generated program.  Fields after generate(): text, witnesses [(name, ty)], params [(name, ty, value)],
     forms (set of AST forms used), observe (the type of the final observed expression or None)."""
 
+    BUILTIN_ALIASES = []   # [(name, ty)] from the regenerated alias table (set by corelib.jet_catalog)
+
     def __init__(self, rng, jets, size=40, allow_params=True, allow_big=False, focus=None):
         self.rng = rng
         self.jets = jets  # name -> (params, ret)
@@ -202,6 +204,10 @@ class ProgGen:
             if a == t and self.rng.random() < 0.4:
                 self.forms.add("alias")
                 return n
+        for (n, a) in self.BUILTIN_ALIASES:
+            if a == t and self.rng.random() < 0.3:
+                self.forms.add("builtin_alias")
+                return n
         k = t[0]
         if k in ("B", "U"):
             return gen.ty_src(t)
@@ -231,10 +237,19 @@ class ProgGen:
             c = self.rng.randrange(6)
             w = 1 << v[1]
             if c == 0 and w >= 8:
-                return "0x%0*x" % (w // 4, v[2])
-            if c == 1:
-                return "0b" + format(v[2], "0%db" % w) if w <= 64 else str(v[2])
-            return str(v[2])
+                pre, digits = "0x", "%0*x" % (w // 4, v[2])
+            elif c == 1 and w <= 64:
+                pre, digits = "0b", format(v[2], "0%db" % w)
+            else:
+                pre, digits = "", str(v[2])
+            if self.rng.random() < 0.15:
+                # digit separators anywhere, leading ones too
+                self.forms.add("literal_separators")
+                ds = list(digits)
+                for _ in range(self.rng.randrange(1, 3)):
+                    ds.insert(self.rng.randrange(len(ds) + 1), "_")
+                digits = "".join(ds)
+            return pre + digits
         if k == "b":
             return "true" if v[1] else "false"
         if k == "l":
@@ -587,4 +602,7 @@ class ProgGen:
         mainret = r.choice(["", "", " -> ()"])
         items.append("fn main()%s { %s }" % (mainret, " ".join(body)))
         self.text = "\n".join(items)
+        if r.random() < 0.25:
+            self.forms.add("blank_ends")
+            self.text = r.choice(["\n", "\n\n", " \n", "// c\n\n", "/* é */\n", "\r\n"]) + self.text + r.choice(["", "\n", "\n\n", "\n// end", " \n\n"])
         return self
